@@ -52,9 +52,50 @@ def dispatch(loader):
 TASKS = [FunctionTask(CHECK_NPTS, clauses=["a sample count that disagrees with the header raises"]), StructTask("read-broadcast", read_broadcast),
          StructTask("reader-registry", dispatch)]
 
+# ---------------------------------------------------------------------------------------------------------------------
+# _arrange_traces: for three traces, every combination of channel-code endings (E, N, Z, or anything else) - the function only looks at the
+# last letter of the code, so these 4^3 cases are all there are.  The three loop iterations are unrolled (concrete list).
+import itertools
+
+from pyvc.core import FuncV, StrV, Tup
+
+_CODES = {"E": "HHE", "N": "BHN", "Z": "EHZ", "other": "HH1"}
+
+
+def _arr_inputs(letters):
+    def mk(ex, st):
+        traces = []
+        for k, l in enumerate(letters):
+            meta = ex.alloc_obj(st, "Stats", {"channel": StrV(_CODES[l])}, f"param:traces[{k}].meta")
+            traces.append(ex.alloc_obj(st, "Trace", {"meta": meta, "index": z3.IntVal(k)}, f"param:traces[{k}]"))
+        st.env["traces"] = ex.alloc_list(st, traces)
+        return []
+    return mk
+
+
+def _from_trace(ex, st, args, kw, node):
+    """TimeSeries.from_trace(trace): stands for "the time series made from trace <index>" (its own contract: C18 / bounded C07)"""
+    return ex.alloc_obj(st, "TimeSeries", {"from_trace_index": st.heap[args[0].oid].fields["index"]}, "fresh")
+
+
+_TS = FuncV(None, "TimeSeries", attrs={"from_trace": FuncV(_from_trace, "TimeSeries.from_trace")})
+for letters in itertools.product(("E", "N", "Z", "other"), repeat=3):
+    if sorted(letters) == ["E", "N", "Z"]:
+        pos = {l: k for k, l in enumerate(letters)}
+        ens = [f"result[0].from_trace_index == {pos['N']}", f"result[1].from_trace_index == {pos['E']}", f"result[2].from_trace_index == {pos['Z']}"]
+        rai = {}
+    else:
+        ens, rai = [], {"ValueError": "True"}
+    TASKS_ARR = FunctionTask(Contract(qual="hvsrpy.data_wrangler._arrange_traces", params=["traces"], ensures=ens, raises=rai, make_inputs=_arr_inputs(letters), modifies=[],
+                                      notes="three traces: (ns, ew, vt) = the traces whose channel codes end in N, E, Z, in whatever order they come; anything else is refused"),
+                             module_env={"TimeSeries": _TS}, label=f"hvsrpy.data_wrangler._arrange_traces[{','.join(letters)}]",
+                             clauses=["components are assigned by channel code, independent of the order of the traces"])
+    TASKS.append(TASKS_ARR)
+
 META = dict(
     level="other",
-    explanation="proved: _check_npts raises iff the counts differ; structural: read() broadcasts each argument by its own type and zips in order, the reader "
+    explanation="proved: _check_npts raises iff the counts differ; _arrange_traces for three traces and all 64 combinations of channel-code endings "
+                "(E / N / Z / other): (ns, ew, vt) are the traces ending in N, E, Z in whatever order they come, every other combination raises ValueError; structural: read() broadcasts each argument by its own type and zips in order, the reader "
                 "registry; bounded: SAF / MiniShark / PEER files written from a grammar (channel and file orders, NORTH_ROT / azimuth codes / explicit "
                 "orientation incl. 0, gain and conversion, both line endings, count mismatches), miniSEED (1 and 3 files) and SAC (both byte orders) "
                 "written with obspy in all 6 orders, the GCF example, an unrecognised file, read() argument broadcasting",
